@@ -416,5 +416,13 @@ fn main() {
         }
         run.ev.set("incompatible_operand_cases", serde_json::json!(gc));
     }
+    // Bloom unions at bit-array lengths around the 64-bit block boundaries (default hasher)
+    {
+        let (bc, bv) = checks::medium::bloom_union_blocks();
+        for v in bv {
+            run.violation(v);
+        }
+        run.ev.set("bloom_union_block_boundary_cases", serde_json::json!(bc));
+    }
     run.finish();
 }
